@@ -5,7 +5,7 @@ import Bng.Model.PoolSpec
   One generic model of the five free-list pools of bng:
 
     dhcp.Pool            pkg/dhcp/pool.go       Allocate(mac) / Release(ip) BY VALUE (scan of the map) /
-                                                MarkUnavailable(ip) / Stats
+                                                MarkUnavailable(ip) / Reserve(mac, ip) / Stats
     dhcpv6.AddressPool   pkg/dhcpv6/server.go   Allocate(duid) / Release(duid)      (first 1000 addresses)
     dhcpv6.PrefixPool    pkg/dhcpv6/server.go   Allocate(duid) / Release(duid)      (first 1000 prefixes)
     pppoe.IPPool         pkg/pppoe/server.go    Allocate(session) / Release(session)
@@ -52,6 +52,7 @@ inductive Obs where
   | none
   | sub (k : Nat)
   | stats (alloc avail total unavail : Nat)
+  | bool (b : Bool)
   deriving Repr, DecidableEq
 
 /-- Allocate -/
@@ -95,6 +96,24 @@ def mark (s : State) (a : Nat) : State × Obs :=
             avail := s.avail.erase a,
             parked := if a ∈ s.avail then a :: s.parked else s.parked }, .ok)
 
+/-- dhcp.Pool.Reserve(mac, ip): bind a SPECIFIC address.  Already held by this key → true, nothing
+    changes.  On the free list → it is taken from wherever it stands, the key's previous address (if any)
+    is appended to the free list, the map entry is overwritten → true.  Otherwise (held by another key,
+    gateway, network/broadcast, reserved, declined, outside) → false and NOTHING changes. -/
+def reserve (s : State) (k a : Nat) : State × Obs :=
+  match s.held.lookup k with
+  | some cur =>
+    if cur = a then (s, .bool true)
+    else if a ∈ s.avail then
+      ({ s with avail := s.avail.erase a ++ [cur], held := AMap.insert s.held k a,
+                rev := if s.cfg.hasRev then AMap.insert (AMap.erase s.rev cur) a k else s.rev }, .bool true)
+    else (s, .bool false)
+  | Option.none =>
+    if a ∈ s.avail then
+      ({ s with avail := s.avail.erase a, held := AMap.insert s.held k a,
+                rev := if s.cfg.hasRev then AMap.insert s.rev a k else s.rev }, .bool true)
+    else (s, .bool false)
+
 /-- Stats(): Allocated, Available, Total = Available + Allocated, Unavailable -/
 def stats (s : State) : Obs :=
   .stats s.held.length s.avail.length (s.avail.length + s.held.length) s.marked.length
@@ -119,6 +138,7 @@ inductive Op where
   | stats
   | get (k : Nat)
   | owner (a : Nat)
+  | reserve (k a : Nat)
   deriving Repr, DecidableEq
 
 def step (s : State) : Op → State × Obs
@@ -129,6 +149,7 @@ def step (s : State) : Op → State × Obs
   | .stats => (s, stats s)
   | .get k => (s, get s k)
   | .owner a => (s, owner s a)
+  | .reserve k a => reserve s k a
 
 def run (s : State) (ops : List Op) : State := ops.foldl (fun st op => (step st op).1) s
 
@@ -234,6 +255,11 @@ def mcheck (mg : MGeo) (st : MSt) : MEv → MSt × List Verdict
     let (m', vs) := check mg.g st.mon (.got k a)
     ({ st with mon := m' },
      vs ++ (if a ∈ mg.holes then [("range", s!"excluded value {a} handed out")] else []))
+  | .pool (.forced k a) =>
+    let (m', vs) := check mg.g st.mon (.forced k a)
+    ({ st with mon := m' },
+     vs ++ (if a ∈ mg.holes then [("range", s!"excluded value {a} handed out")] else []) ++
+           (if a ∈ st.parked then [("range", s!"value {a} was taken out of circulation and is handed out")] else []))
   | .pool e =>
     let (m', vs) := check mg.g st.mon e
     ({ st with mon := m' }, vs)
